@@ -53,6 +53,7 @@ type genCtx struct {
 func (g *genCtx) newFunc(role Role) *Func {
 	g.h.Funcs = append(g.h.Funcs, Func{ID: len(g.h.Funcs), Role: role, Cat: -1})
 	f := &g.h.Funcs[len(g.h.Funcs)-1]
+	f.Salt = g.r.I64() % 1000003
 	if g.ft.Slow {
 		f.DurNs = int64(1000 * (1 + g.r.Intn(10_000_000)))
 		if g.r.P(0.3) {
@@ -423,9 +424,9 @@ func (g *genCtx) opScope() {
 func (g *genCtx) fromCatalog(idx int) *Func {
 	spec := deepCopyFunc(&catSpecs[idx])
 	f := g.newFunc(spec.Role)
-	id, dur, info := f.ID, f.DurNs, f.Info
+	id, dur, info, salt := f.ID, f.DurNs, f.Info, f.Salt
 	*f = spec
-	f.ID, f.DurNs, f.Info, f.Cat = id, dur, info, idx
+	f.ID, f.DurNs, f.Info, f.Cat, f.Salt = id, dur, info, idx, salt
 	if g.catUsed == nil {
 		g.catUsed = map[int]bool{}
 	}
